@@ -677,14 +677,12 @@ def shutdown (s : Sock) (rd wr : Bool) : M (Sock × Outcome) := do
       return (s, failOut 0 e)
     else return (if rd && wr then { s with connected := false } else s, { ret := 1 })
 
-/-- the two `pboolean` (= `int`) arguments of `p_socket_shutdown` as the code reads them: `== FALSE` for the early
-    return and `== TRUE` (that is `== 1`) for the direction and for clearing `connected` — a non-zero value other
-    than 1 is neither FALSE nor TRUE there.  Result: the (read, write) pair `shutdown` above is run with. -/
-def shutdownArgs (rd wr : Int) : Bool × Bool :=
-  if rd = 0 ∧ wr = 0 then (false, false)
-  else if rd = 1 ∧ wr = 1 then (true, true)
-  else if rd = 1 then (true, false)
-  else (false, true)
+/-- the two `pboolean` (= `int`) arguments of `p_socket_shutdown` as the code reads them:
+    `shutdown_read = !! shutdown_read; shutdown_write = !! shutdown_write;` right after `pp_socket_check` — every non-zero
+    value is TRUE (pinned by `Generated.Socket.shutdownAsModelled`).  Result: the (read, write) pair `shutdown` above is run with.
+    (Before the repair recorded in known_findings.json the arguments were compared with `== TRUE` as they came: a non-zero value
+    other than 1 was neither FALSE nor TRUE — `shutdownArgsHistorical` in `PV.Props.C10` §7.) -/
+def shutdownArgs (rd wr : Int) : Bool × Bool := (decide (rd ≠ 0), decide (wr ≠ 0))
 
 /-- `p_socket_set_buffer_size` -/
 def setBufferSize (s : Sock) (dir : Int) (size : Nat) : M Outcome := do
